@@ -508,8 +508,10 @@ Proof.
   rewrite H1, H2. cbn [andb]. apply IH; auto.
 Qed.
 
-Theorem model_meets_oracle : forall i, wf i = true -> spec_ok i (model i) = true.
-Proof. intros i W. unfold spec_ok, model. apply orc_run; [apply Inv_nil|exact W]. Qed.
+(* the ledger part of the oracle (everything but the owed listings); the whole
+   oracle: C19_Audit.model_meets_oracle *)
+Theorem model_meets_ledger : forall i, wf i = true -> orc [] (i_ops i) (model i) = true.
+Proof. intros i W. unfold model. apply orc_run; [apply Inv_nil|exact W]. Qed.
 
 (* reachable stores *)
 Definition state_after (ops : list op) : state := fst (run_ops [] ops).
